@@ -27,13 +27,15 @@ const (
 	LevelP
 )
 
-func (k StoreKind) String() string { return [...]string{"mem", "level(mem,mem)", "level(mem,pnodedb)"}[k] }
+func (k StoreKind) String() string {
+	return [...]string{"mem", "level(mem,mem)", "level(mem,pnodedb)"}[k]
+}
 
 // Op is one letter of the alphabet.
 type Op struct {
-	K   byte // I insert, D delete, E insert-empty, O oversize, F flush(save+reopen), B bump version
-	P   string
-	V   string
+	K byte // I insert, D delete, E insert-empty, O oversize, F flush(save+reopen), B bump version
+	P string
+	V string
 }
 
 func (o Op) String() string {
@@ -60,7 +62,7 @@ type bigVal struct{}
 
 var bigBuf = make([]byte, util.MPTMaxAllowableNodeSize+1)
 
-func (bigVal) MarshalMsg([]byte) ([]byte, error)    { return bigBuf, nil }
+func (bigVal) MarshalMsg([]byte) ([]byte, error)     { return bigBuf, nil }
 func (bigVal) UnmarshalMsg(b []byte) ([]byte, error) { return nil, nil }
 
 func val(s string) *util.SecureSerializableValue {
@@ -68,6 +70,9 @@ func val(s string) *util.SecureSerializableValue {
 }
 
 var devCounter int64
+
+func nextDev() int64    { return atomic.AddInt64(&devCounter, 1) }
+func resetDev(p string) { grocksdb.ResetDevice(p) }
 
 // World is one fresh instance of trie + stores + reference model.
 type World struct {
